@@ -75,7 +75,13 @@ def evStep (c : RCfg) (n : Nat) (t : TSt) (e : BEv) : Except String TSt :=
     else if counts t.m ≠ evCounts e then .error s!"after pick {p}: model {counts t.m}, implementation {evCounts e}"
     else .ok { t with pendingPick := none }
   | some p, k => .error s!"the model starts reclaiming block {p} here, the implementation continues with {k}"
-  | none, "pick" => .error s!"the implementation picked block {e.block} for reclaim where the model does not reclaim ({counts t.m})"
+  | none, "pick" =>
+    -- `BlockManager::init` ends with `reclaim_if_needed` (no transition precedes this pick)
+    let m' := reclaimIfNeeded c t.m
+    if m'.picked.length > t.m.picked.length && m'.picked.getLast? = some e.block then
+      (if counts m' ≠ evCounts e then .error s!"after the initial pick {e.block}: model {counts m'}, implementation {evCounts e}"
+       else .ok { m := m' })
+    else .error s!"the implementation picked block {e.block} for reclaim where the model does not reclaim ({counts t.m})"
   | none, "init" => .ok { m := init n }
   | none, "init-evictable" =>
     .ok { m := { t.m with clean := t.m.clean.filter (· ≠ e.block), evictable := t.m.evictable ++ [e.block],
